@@ -469,6 +469,9 @@ A19(L) == (IsOp(L) /\ L.nreq > 3 * Bound(L)) \/ (IsRet(L) /\ L.last.unsafeOK /\ 
 M19(L) ==
   /\ (IsOp(L) => L.last.e.nkeys <= Bound(L) /\ L.last.e.maxidx <= Bound(L))
   /\ (IsEnd(L) => L.last.e.nkeys <= Bound(L) /\ L.last.e.maxidx <= Bound(L))
+  \* invalidation removes every key it makes unreachable - at every step: an index never goes while an entry it names is
+  \* still there (a crash or a failing store between the two deletes would leave that entry behind for good)
+  /\ (IsOp(L) /\ L.last.e.kind = "del" /\ ~L.faulted => L.last.e.orph = 0)
   /\ (IsRet(L) /\ L.last.unsafeOK /\ ~L.faulted =>
         \A k \in DOMAIN L.kv :
            \A T \in L.kv[k].toks \cap L.last.newInval : \E p \in L.replacedFor : p[1] = T)
